@@ -57,10 +57,11 @@ WordFnInt(fn, w) ==
     [] fn = "CLZ" -> wCLZ(w)
 WordFnW(fn, w) ==
   CASE fn = "Rev" -> wRev(w)
+    [] fn = "Rev_" -> wRev(w)                \* u64Rev_: the macro edition of u64Rev ("reverse of the octets of a u64 word")
     [] fn = "Bitrev" -> wBitrev(w)
     [] fn = "Shuffle" -> wShuffle(w)
     [] fn = "Deshuffle" -> wDeshuffle(w)
     [] fn = "NegInv" -> wNegInv(w)
 IsIntFn(fn) == fn \in {"Weight", "Parity", "CTZ", "CLZ"}
-IsWFn(fn) == fn \in {"Rev", "Bitrev", "Shuffle", "Deshuffle", "NegInv"}
+IsWFn(fn) == fn \in {"Rev", "Rev_", "Bitrev", "Shuffle", "Deshuffle", "NegInv"}
 =============================================================================
